@@ -4,5 +4,5 @@ from harness.corecheck import make
 from harness.props import c15_reload
 PARTS = [make("C15", ["CircusProofs/Props/C15.lean"],
               ["CircusProofs/Core/Pres.lean", "CircusProofs/Core/Generic.lean", "CircusProofs/Core/SlotFree.lean",
-               "CircusProofs/Core/DirInv.lean", "CircusProofs/Core/Init.lean"]),
+               "CircusProofs/Core/DirInv.lean", "CircusProofs/Core/Init.lean", "CircusProofs/Core/OptionsCmd.lean"]),
          c15_reload]
